@@ -20,15 +20,15 @@ func (x *Exec) mapSorts(t types.Type) (ks, vs string, mt *types.Map) {
 
 func (x *Exec) mapInit(s *State, id *Term, t types.Type) {
 	ks, vs, _ := x.mapSorts(t)
-	has := s.heapComp(mapComp(t)+"#has", SArr(SInt, SArr(ks, SBool)))
-	val := s.heapComp(mapComp(t)+"#val", SArr(SInt, SArr(ks, vs)))
-	s.setHeapComp(mapComp(t)+"#has", Store(has, id, ConstArray(SArr(ks, SBool), False)))
-	s.setHeapComp(mapComp(t)+"#val", Store(val, id, ConstArray(SArr(ks, vs), zeroTerm(vs))))
+	has := s.heapComp(mapComp(t)+"@has", SArr(SInt, SArr(ks, SBool)))
+	val := s.heapComp(mapComp(t)+"@val", SArr(SInt, SArr(ks, vs)))
+	s.setHeapComp(mapComp(t)+"@has", Store(has, id, ConstArray(SArr(ks, SBool), False)))
+	s.setHeapComp(mapComp(t)+"@val", Store(val, id, ConstArray(SArr(ks, vs), zeroTerm(vs))))
 }
 
 func (x *Exec) mapLen(s *State, m *Term, mt *types.Map) *Term {
 	ks := sortOfType(mt.Key())
-	has := Select(s.heapComp(mapComp(mt)+"#has", SArr(SInt, SArr(ks, SBool))), m)
+	has := Select(s.heapComp(mapComp(mt)+"@has", SArr(SInt, SArr(ks, SBool))), m)
 	fname := "card." + sanitize(has.Sort)
 	x.Ctx.DeclareFunc(fname, []string{has.Sort}, SInt)
 	return App(fname, SInt, has)
@@ -42,8 +42,8 @@ func (x *Exec) mapLookup(s *State, f *Frame, in *ssa.Lookup) Value {
 	ks, vs, mt := x.mapSorts(in.X.Type())
 	m := x.scalar(x.val(s, f, in.X))
 	k := s.reify(x.val(s, f, in.Index), mt.Key())
-	has := Select(Select(s.heapComp(mapComp(mt)+"#has", SArr(SInt, SArr(ks, SBool))), m), k)
-	val := Select(Select(s.heapComp(mapComp(mt)+"#val", SArr(SInt, SArr(ks, vs))), m), k)
+	has := Select(Select(s.heapComp(mapComp(mt)+"@has", SArr(SInt, SArr(ks, SBool))), m), k)
+	val := Select(Select(s.heapComp(mapComp(mt)+"@val", SArr(SInt, SArr(ks, vs))), m), k)
 	v := Ite(has, val, zeroTerm(vs))
 	if !isScalarType(mt.Elem()) {
 		// aggregate map values are opaque
@@ -64,12 +64,12 @@ func (x *Exec) mapUpdate(s *State, f *Frame, in *ssa.MapUpdate) {
 	m := x.scalar(x.val(s, f, in.Map))
 	x.safety(s, f, in, "nil-map-write", Neq(m, IntLit(0)))
 	k := s.reify(x.val(s, f, in.Key), mt.Key())
-	hasC := s.heapComp(mapComp(mt)+"#has", SArr(SInt, SArr(ks, SBool)))
-	valC := s.heapComp(mapComp(mt)+"#val", SArr(SInt, SArr(ks, vs)))
-	s.setHeapComp(mapComp(mt)+"#has", Store(hasC, m, Store(Select(hasC, m), k, True)))
+	hasC := s.heapComp(mapComp(mt)+"@has", SArr(SInt, SArr(ks, SBool)))
+	valC := s.heapComp(mapComp(mt)+"@val", SArr(SInt, SArr(ks, vs)))
+	s.setHeapComp(mapComp(mt)+"@has", Store(hasC, m, Store(Select(hasC, m), k, True)))
 	if isScalarType(mt.Elem()) {
 		v := s.reify(x.val(s, f, in.Value), mt.Elem())
-		s.setHeapComp(mapComp(mt)+"#val", Store(valC, m, Store(Select(valC, m), k, v)))
+		s.setHeapComp(mapComp(mt)+"@val", Store(valC, m, Store(Select(valC, m), k, v)))
 	}
 }
 
@@ -77,8 +77,8 @@ func (x *Exec) mapDelete(s *State, mv, kv Value, t types.Type) {
 	ks, _, mt := x.mapSorts(t)
 	m := x.scalar(mv)
 	k := s.reify(kv, mt.Key())
-	hasC := s.heapComp(mapComp(mt)+"#has", SArr(SInt, SArr(ks, SBool)))
-	s.setHeapComp(mapComp(mt)+"#has", Store(hasC, m, Store(Select(hasC, m), k, False)))
+	hasC := s.heapComp(mapComp(mt)+"@has", SArr(SInt, SArr(ks, SBool)))
+	s.setHeapComp(mapComp(mt)+"@has", Store(hasC, m, Store(Select(hasC, m), k, False)))
 }
 
 // iterator state lives in ghost-like heap components keyed by iterator id
@@ -115,7 +115,7 @@ func (x *Exec) rangeNext(s *State, f *Frame, in *ssa.Next) Value {
 	mt := info.Type.(*types.Map)
 	ks, vs := sortOfType(mt.Key()), sortOfType(mt.Elem())
 	k := x.Ctx.Fresh("next.k", ks)
-	has := Select(s.heapComp(mapComp(mt)+"#has", SArr(SInt, SArr(ks, SBool))), info.Map)
+	has := Select(s.heapComp(mapComp(mt)+"@has", SArr(SInt, SArr(ks, SBool))), info.Map)
 	visC := s.heapComp("iter.visited."+ks, SArr(SInt, SArr(ks, SBool)))
 	vis := Select(visC, it)
 	s.Assume(Implies(ok, And(Select(has, k), Not(Select(vis, k)))))
@@ -125,7 +125,7 @@ func (x *Exec) rangeNext(s *State, f *Frame, in *ssa.Next) Value {
 	var kv, vv Value
 	kv = s.unreify(k, mt.Key())
 	if isScalarType(mt.Elem()) {
-		val := Select(Select(s.heapComp(mapComp(mt)+"#val", SArr(SInt, SArr(ks, vs))), info.Map), k)
+		val := Select(Select(s.heapComp(mapComp(mt)+"@val", SArr(SInt, SArr(ks, vs))), info.Map), k)
 		vv = s.unreify(val, mt.Elem())
 	} else {
 		vv = s.freshValue("next.v", mt.Elem())
